@@ -67,6 +67,39 @@ CHECKS.update({
         ref="DESIGN.md §4 C16", note="a cut string that only lost zero padding and still decodes to the original schedule is accepted"),
 })
 
+CHECKS.update({
+    "C07": dict(
+        technique="runtime monitoring: event log written by instrumented thread-locals (init/drop with instance ids), closures and joins of generated thread trees, checked offline per execution (exactly-once, ordering of join vs destructors, per-thread instances, access after destruction, ids/names)",
+        text="On every observed execution of the generated thread trees: each closure ran once, join returned the closure's value after the closure and all of the thread's thread-local destructors, scopes outlived their threads, each (thread,key) had one instance destroyed exactly once in initialisation order, access during/after destruction failed, ids and names were right.",
+        ref="DESIGN.md §4 C07", note="std::thread::scope does not wait for thread-local destructors either; that part is not demanded"),
+    "C12": dict(
+        technique="runtime monitoring in fresh child processes: a history of differently configured Shuttle runs followed by a failing run; the parent checks the caught payload, parses the run's stderr segment and the persistence directory, and replays the emitted schedule in another fresh process",
+        text="For every (history, mode, scenario) case run: the failure surfaced with the task's own payload / the naming message, a schedule was emitted exactly in the configured way (or not at all when disabled) whatever ran before, replaying it reproduced the failure; portfolios failed iff a member did.",
+        ref="DESIGN.md §4 C12", note="target runs that do not hit their failure within 400 random iterations are counted, not judged"),
+    "C14": dict(
+        technique="runtime monitoring: per-iteration self-checks at body entry, live-instance accounting of instrumented values across execution boundaries, cleanup-residue hook, in-context vs stand-alone replay differential, with completed / scheduler-stopped / step-bound-cut predecessors",
+        text="On every iteration observed (all schedulers, all predecessor kinds): the body found a fresh world, no instrumented value survived its execution, cleanup left no labels/tags/storage, initialisers ran once, and the iteration equalled the stand-alone replay of its recorded schedule.",
+        ref="DESIGN.md §4 C14", note="trusted: hook H3 (post-cleanup residue counts); live-instance counter is a std thread-local of the runner's OS thread"),
+    "C17": dict(
+        technique="runtime monitoring: every task's top-level future wrapped so that all polls and all invocations of its waker (user code, JoinHandle completion, yields) are logged; offline checker for lost wake-ups, phantom polls, JoinHandle/abort/detach rules over generated async programs",
+        text="On every observed execution of the generated async programs: no task was left un-polled after a wake at/after its last poll, none was polled repeatedly without a wake, JoinHandles yielded the task's own output after completion or Cancelled only after an abort with the future already dropped, aborted tasks took no further steps, detached tasks were not destroyed early, all-pending programs were reported as deadlocks.",
+        ref="DESIGN.md §4 C17", note="one stale re-poll per wake (the executor's `woken` flag) is tolerated"),
+    "C18": dict(
+        technique="runtime monitoring: scripted, hand-polled Acquire futures on a strictly fair BatchSemaphore with every step validated against a FIFO counting model and against the semaphore's internal queue/flags (verif hook); blocking programs in both fairness modes against the reference model; exhaustively enumerated cancellation/move scenarios",
+        text="Every scripted step agreed with the model in result, wake-ups, available permits and internal queue; blocking programs in both fairness modes produced only allowed outcomes; the cancellation, moved-future and close scenarios passed on every schedule.",
+        ref="DESIGN.md §4 C18", note="trusted: hook H2 (read-only snapshot); manually polled Acquires on an unfair semaphore are not driven (unsupported use)"),
+    "C19": dict(
+        engine="vtokio",
+        technique="runtime monitoring: differential scripts of hand-polled operations against real tokio (no runtime) vs the replacement inside a Shuttle execution; scheduled scenario programs with built-in invariant checks explored exhaustively and by random/PCT sampling",
+        text="All scripts agreed step by step with real tokio on the compared results; every scenario (correct tokio program with exactly-once/FIFO/capacity/Notify/lock/JoinSet invariants) passed on every schedule explored, apart from the listed known finding.",
+        ref="DESIGN.md §4 C19", note="real tokio from the offline registry is the reference; wake-ups and a few documented corner divergences (capacity of a closed channel, available_permits with a queued request, queued senders/acquirers at close, choice among several Notify waiters) are not compared"),
+    "C20": dict(
+        engine="vwrap",
+        technique="runtime monitoring: lock_api programs with shadow access matrix, upgrade-atomicity and non-waiting-downgrade monitors; DashMap/DashSet linearised against BTreeMap/BTreeSet in return order; deterministic collections compared with std and their iteration orders compared across instances and fresh processes; rand/lazy_static replacements under the replay and isolation monitors",
+        text="On everything explored the access matrix held, DashMap results equalled a plain map under the operations' return order, collections matched std and iterated identically across instances and processes, rand draws replayed identically and the wrapped lazy static was per-execution; the listed parking_lot findings are the only deviations.",
+        ref="DESIGN.md §4 C20", note="instances built with with_capacity are not order-compared with others"),
+})
+
 NOT_YET = {}
 
 def main():
@@ -100,7 +133,9 @@ def main():
             "add_only": True,
         },
         "engines": [
-            {"name": "vcore", "path": "/verif/harness/vcore", "serves_properties": sorted(CHECKS),
+            {"name": "vtokio", "path": "/verif/harness/vtokio", "serves_properties": ["C19"], "kind_free_text": "Rust harness linking the tokio replacement and real tokio: differential script interpreter and scenario bodies"},
+            {"name": "vwrap", "path": "/verif/harness/vwrap", "serves_properties": ["C20"], "kind_free_text": "Rust harness linking the parking_lot, dashmap, collections, rand and lazy_static replacements"},
+            {"name": "vcore", "path": "/verif/harness/vcore", "serves_properties": sorted(k for k in CHECKS if k not in ("C19", "C20")),
              "kind_free_text": "Rust harness: recording/contract-checking wrapper scheduler, independent exhaustive enumerator, workload language + interpreter over the real primitives, sequential reference model, monitors and evidence writer"},
         ],
         "checks": checks,
